@@ -238,11 +238,12 @@ fn main() {
     // replay files + determinism check for what is about to be reported
     let total_new: u64 = merged.viol_by_site.values().sum();
     let mut lines = vec![];
+    let mut unreproduced: Vec<String> = vec![];
     let mut reported_sites = std::collections::BTreeMap::<String, usize>::new();
     for v in &merged.violations {
         let n = reported_sites.entry(v.site.clone()).or_insert(0);
         *n += 1;
-        if *n > 2 || lines.len() >= 12 {
+        if *n > 2 || lines.len() >= 12 || unreproduced.len() >= 8 {
             continue;
         }
         match report::write_replay(prop.id, v, tier) {
@@ -250,13 +251,12 @@ fn main() {
                 if v.case.get("kind").and_then(|k| k.as_str()) != Some("wedge") {
                     let a = replay_child(&exe, &id, tier, &p);
                     let b = replay_child(&exe, &id, tier, &p);
-                    if a != b {
-                        eprintln!("machinery: replay of {} is not deterministic:\n--- first\n{}\n--- second\n{}", p.display(), a.1, b.1);
-                        std::process::exit(2);
-                    }
-                    if a.0 != 1 {
-                        eprintln!("machinery: violation {} / {} did not reproduce in replay ({}):\n{}", v.site, v.key, p.display(), a.1);
-                        std::process::exit(2);
+                    if a != b || a.0 != 1 {
+                        // found during exploration but not reproduced from its replay file (the verdict depended on
+                        // something the case does not capture): never printed as a verdict
+                        unreproduced.push(format!("{} / {} ({}): first replay exit {}, second exit {}, outputs {}", v.site, v.key, p.display(), a.0, b.0, if a.1 == b.1 { "identical" } else { "different" }));
+                        *n -= 1;
+                        continue;
                     }
                 }
                 lines.push(format!("VIOLATION property={} replay={}  # site={} key={} :: {}", prop.id, p.display(), v.site, v.key, v.what));
@@ -268,6 +268,16 @@ fn main() {
         }
     }
 
+    if total_new > 0 && lines.is_empty() {
+        // violations were observed, but none of the replayed ones reproduces: machinery, not a verdict
+        for u in &unreproduced {
+            eprintln!("machinery: violation did not reproduce in replay: {u}");
+        }
+        std::process::exit(2);
+    }
+    for u in &unreproduced {
+        eprintln!("note: a violation seen during exploration did not reproduce from its replay file and is not reported: {u}");
+    }
     let wall = t_start.elapsed().as_secs_f64();
     match report::write_evidence(prop.id, tier, std::env::var("VERIF_SEED").ok().and_then(|s| s.parse().ok()).unwrap_or(0), &level, &merged, wall, total_new as usize, &known) {
         Ok(_) => {}
